@@ -297,8 +297,11 @@ type c03Obs struct {
 }
 
 // c03RunClient performs the two requests with a fresh real client over the given dialer.
-func c03RunClient(dial func(ctx context.Context, network, addr string) (net.Conn, error), dials func() int, head bool, stream bool, readSize int) (o c03Obs) {
-	c := C().SetDial(dial).DisableAutoDecode().SetTimeout(20 * time.Second)
+func c03RunClient(dial func(ctx context.Context, network, addr string) (net.Conn, error), dials func() int, head bool, stream bool, readSize int, early bool, unstick func()) (o c03Obs) {
+	if early {
+		stream = true
+	}
+	c := C().SetDial(dial).DisableAutoDecode().SetTimeout(4 * time.Second)
 	c.GetTransport().DisableCompression = true
 	if stream {
 		c.DisableAutoReadResponse()
@@ -320,6 +323,12 @@ func c03RunClient(dial func(ctx context.Context, network, addr string) (net.Conn
 			return "fail", "nil response without error"
 		}
 		var body []byte
+		if early {
+			// the caller walks away: close the body without reading it
+			early = false
+			resp.Body.Close()
+			return "ok-early code=" + strconv.Itoa(resp.StatusCode), ""
+		}
 		if stream {
 			buf := make([]byte, readSize)
 			for {
@@ -347,10 +356,25 @@ func c03RunClient(dial func(ctx context.Context, network, addr string) (net.Conn
 		}
 		return "ok code=" + strconv.Itoa(resp.StatusCode) + " body=" + verifh.Hex(string(body)), ""
 	}
-	o.first, o.firstErr = do()
+	// watchdog: a call that neither returns nor fails within the bound is a wedged caller
+	guarded := func() (string, string) {
+		type res struct{ a, b string }
+		ch := make(chan res, 1)
+		go func() { a, b := do(); ch <- res{a, b} }()
+		select {
+		case x := <-ch:
+			return x.a, x.b
+		case <-time.After(12 * time.Second):
+			if unstick != nil {
+				unstick()
+			}
+			return "hang", "the call (or Body.Close) did not return within 12s"
+		}
+	}
+	o.first, o.firstErr = guarded()
 	o.dialsAfter = dials()
 	head = false
-	second, serr := do()
+	second, serr := guarded()
 	o.dials = dials()
 	want := "ok code=200 body=" + verifh.Hex(c03Second)
 	o.secondOK = second == want
@@ -375,6 +399,7 @@ func TestVerif_C03_h1cut(t *testing.T) {
 	nMsgs := verifh.N(220, 1500)
 	counts := map[string]int{}
 	cnt := func(k string) { s.Count(k); counts[k]++ }
+	failures := 0
 	for i := 0; i < nMsgs; i++ {
 		maxBody := 120
 		if i%10 == 9 {
@@ -384,8 +409,10 @@ func TestVerif_C03_h1cut(t *testing.T) {
 		all := verifh.Thorough() && len(m.stream) <= 2048 && i%3 == 0
 		cuts := c03Cuts(r, m.stream, all, verifh.N(6, 14))
 		type variant struct {
-			k    int
-			mode string // eof | reset | hold
+			k      int
+			mode   string // eof | reset | hold | early
+			stream string // the bytes the peer has (default: the message)
+			tag    string
 		}
 		var vs []variant
 		for _, k := range cuts {
@@ -396,33 +423,76 @@ func TestVerif_C03_h1cut(t *testing.T) {
 			if r.Intn(4) == 0 && k < len(m.stream) && m.framing != "close" {
 				mode = "reset"
 			}
-			vs = append(vs, variant{k, mode})
+			vs = append(vs, variant{k: k, mode: mode})
 		}
 		if m.framing != "close" {
-			vs = append(vs, variant{len(m.stream), "hold"})
+			vs = append(vs, variant{k: len(m.stream), mode: "hold"})
+		}
+		// the caller closes the body without reading it; the peer keeps the connection open
+		vs = append(vs, variant{k: len(m.stream), mode: "early"})
+		// ... and the same while the peer is still in the middle of the body: the rest of the
+		// body arrives only after the next request was written to that connection (if any was)
+		if he := strings.Index(m.stream, "\r\n\r\n") + 4; (m.framing == "len" || m.framing == "chunked") && len(m.stream)-he >= 2 {
+			vs = append(vs, variant{k: he + r.Intn(len(m.stream)-he-1), mode: "early", tag: "early-partial"})
+		}
+		// framing errors in the middle of a chunked body on a connection that stays open: the
+		// exchange fails and the connection (whose stream position is now undefined) must not
+		// serve the next request
+		if m.framing == "chunked" && len(m.body) > 0 {
+			he := strings.Index(m.stream, "\r\n\r\n") + 4
+			bad := m.stream[:he] + "z" + m.stream[he+1:]
+			// (the peer stops right after the offending line, so nothing unsolicited is pending)
+			vs = append(vs, variant{k: he + strings.Index(bad[he:], "\n") + 1, mode: "hold", stream: bad, tag: "corrupt-size"})
+			// first chunk: size line, data, then "XX" instead of CRLF
+			if nl := strings.Index(m.stream[he:], "\r\n"); nl > 0 {
+				if sz, err := strconv.ParseInt(strings.SplitN(m.stream[he:he+nl], ";", 2)[0], 16, 32); err == nil {
+					at := he + nl + 2 + int(sz)
+					if at+2 <= len(m.stream) && m.stream[at:at+2] == "\r\n" {
+						bad2 := m.stream[:at] + "XX" + m.stream[at+2:]
+						vs = append(vs, variant{k: at + 2, mode: "hold", stream: bad2, tag: "corrupt-crlf"})
+					}
+				}
+			}
 		}
 		for _, v := range vs {
-			data := []byte(m.stream[:v.k])
+			if failures >= 12 {
+				break // enough failing inputs; a broken client can make every further case wait for its timeout
+			}
+			wire := m.stream
+			if v.stream != "" {
+				wire = v.stream
+			}
+			data := []byte(wire[:v.k])
 			var first []c03Step
 			switch v.mode {
 			case "eof":
 				first = []c03Step{{data: data, end: io.EOF}}
 			case "reset":
 				first = []c03Step{{data: data, end: errC03Reset}}
-			case "hold":
-				first = []c03Step{{data: data}, {data: c03SecondWire}}
+			case "hold", "early":
+				first = []c03Step{{data: data}, {data: append([]byte(wire[v.k:]), c03SecondWire...)}}
 			}
 			nw := &c03Net{scripts: [][]c03Step{first, {{data: c03SecondWire}}}, seg: verifh.Pick(r, []int{0, 0, 1, 7})}
 			stream := r.Intn(3) == 0
-			obs := c03RunClient(nw.dial, func() int { nw.mu.Lock(); defer nw.mu.Unlock(); return nw.dials }, m.head, stream, verifh.Pick(r, []int{1, 5, 64, 4096}))
+			obs := c03RunClient(nw.dial, func() int { nw.mu.Lock(); defer nw.mu.Unlock(); return nw.dials }, m.head, stream, verifh.Pick(r, []int{1, 5, 64, 4096}), v.mode == "early", nw.closeAll)
 			nw.closeAll()
 			impl := obs.first + " dials=" + strconv.Itoa(obs.dials)
 			// property oracle, independent of the model
 			ok := true
 			why := ""
-			complete := v.k == len(m.stream)
+			complete := v.k == len(m.stream) && v.stream == ""
 			wantOK := "ok code=" + strconv.Itoa(m.code) + " body=" + verifh.Hex(m.body)
-			if strings.HasPrefix(obs.first, "ok") {
+			if v.tag != "" {
+				cnt(v.tag)
+			}
+			if v.mode == "early" {
+				if obs.first != "ok-early code="+strconv.Itoa(m.code) {
+					ok, why = false, "response head not delivered: "+obs.firstErr
+				}
+				if m.framing != "none" && obs.dials != 2 {
+					ok, why = false, "connection with an unread body was reused"
+				}
+			} else if strings.HasPrefix(obs.first, "ok") {
 				switch {
 				case m.framing == "close":
 					// a cut is indistinguishable from the end: the body must be the bytes received
@@ -441,8 +511,15 @@ func TestVerif_C03_h1cut(t *testing.T) {
 			if !obs.secondOK {
 				ok, why = false, "second request on the same client failed: "+obs.secondNote
 			}
+			if obs.first == "hang" {
+				ok, why = false, "caller wedged: "+obs.firstErr
+				failures += 4
+			}
 			if strings.HasPrefix(obs.first, "fail") && obs.dials != 2 {
 				ok, why = false, fmt.Sprintf("after a failed exchange the client dialled %d times in total (expected a fresh connection)", obs.dials)
+			}
+			if !ok {
+				failures++
 			}
 			cnt("framing:" + m.framing)
 			cnt("mode:" + v.mode)
@@ -462,15 +539,18 @@ func TestVerif_C03_h1cut(t *testing.T) {
 			if mode == "reset" {
 				mode = "eof"
 			}
-			human := fmt.Sprintf("%s framing=%s len=%d cut k=%d then %s (stream caller=%v) -> %s | err=%s", mtag, m.framing, len(m.stream), v.k, v.mode, stream, impl, obs.firstErr)
+			human := fmt.Sprintf("%s framing=%s len=%d %s cut k=%d then %s (stream caller=%v) -> %s | err=%s", mtag, m.framing, len(wire), v.tag, v.k, v.mode, stream, impl, obs.firstErr)
 			if why != "" {
 				human += " ORACLE: " + why
 			}
-			s.Case("c03cut "+mtag+" "+mode+" "+verifh.Hex(m.stream)+" "+strconv.Itoa(v.k), impl, ok, "", v.k > 0 && v.k < len(m.stream), human)
+			s.Case("c03cut "+mtag+" "+mode+" "+verifh.Hex(wire)+" "+strconv.Itoa(v.k), impl, ok, "", (v.k > 0 && v.k < len(m.stream)) || v.tag != "" || v.mode == "early", human)
 		}
 	}
 	s.Finish()
-	for _, need := range []string{"framing:len", "framing:chunked", "framing:close", "framing:none", "mode:eof", "mode:reset", "mode:hold", "first-ok", "first-fail", "reused"} {
+	if failures >= 12 {
+		return
+	}
+	for _, need := range []string{"framing:len", "framing:chunked", "framing:close", "framing:none", "mode:eof", "mode:reset", "mode:hold", "mode:early", "corrupt-size", "corrupt-crlf", "early-partial", "first-ok", "first-fail", "reused"} {
 		if counts[need] == 0 {
 			t.Errorf("C03/h1cut never reached bucket %q", need)
 		}
@@ -619,7 +699,7 @@ func TestVerif_C03_h1tcp(t *testing.T) {
 				return d.DialContext(ctx, "tcp", addr)
 			}
 			stream := r.Intn(3) == 0
-			obs := c03RunClient(dial, p.count, m.head, stream, verifh.Pick(r, []int{1, 64, 4096}))
+			obs := c03RunClient(dial, p.count, m.head, stream, verifh.Pick(r, []int{1, 64, 4096}), false, func() { p.next(nil) })
 			ok, why := true, ""
 			complete := k == len(m.stream)
 			if strings.HasPrefix(obs.first, "ok") {
